@@ -42,6 +42,7 @@ const (
 	ltInt64   = "int64"
 	ltUint64  = "uint64"
 	ltInt     = "int"
+	ltUint    = "uint" // 64-bit unsigned, a Coq N (the morton package is modelled over N)
 	ltBool    = "bool"
 	ltUntyped = "untyped"
 	ltLine    = "Line"
@@ -61,6 +62,7 @@ type lfield struct {
 }
 
 type lsig struct {
+	panics bool
 	decl   *ast.FuncDecl
 	recvTy string
 	recv   string
@@ -90,19 +92,21 @@ type lcont struct {
 }
 
 type lg struct {
-	fset     *token.FileSet
-	structs  map[string][]lfield
-	consts   map[string]*big.Int // package level untyped integer constants
-	sigs     map[string]*lsig    // "f" or "T.m"
-	emitted  map[string]bool
-	bitsName string
-	geomName string
-	n        int
-	cur      *lsig
-	out      strings.Builder
+	fset       *token.FileSet
+	structs    map[string][]lfield
+	consts     map[string]*big.Int // package level untyped integer constants
+	sigs       map[string]*lsig    // "f" or "T.m"
+	emitted    map[string]bool
+	bitsName   string
+	mortonName string
+	panics     bool // the function being translated can panic: its result is an option
+	geomName   string
+	n          int
+	cur        *lsig
+	out        strings.Builder
 }
 
-func isIntTy(t string) bool { return t == ltInt64 || t == ltUint64 || t == ltInt }
+func isIntTy(t string) bool { return t == ltInt64 || t == ltUint64 || t == ltInt || t == ltUint }
 
 func lgRange(t string) (lo, hi *big.Int) {
 	one := big.NewInt(1)
@@ -111,7 +115,7 @@ func lgRange(t string) (lo, hi *big.Int) {
 		hi = new(big.Int).Lsh(one, 63)
 		lo = new(big.Int).Neg(hi)
 		hi = new(big.Int).Sub(hi, one)
-	case ltUint64:
+	case ltUint64, ltUint:
 		lo = big.NewInt(0)
 		hi = new(big.Int).Sub(new(big.Int).Lsh(one, 64), one)
 	}
@@ -125,8 +129,48 @@ func lgLit(z *big.Int) string {
 	return z.String()
 }
 
-func (g *lg) coqType(t string) (string, error) {
+func lgTypedLit(z *big.Int, ty string) string {
+	if ty == ltUint {
+		return z.String() + "%N"
+	}
+	return lgLit(z)
+}
+
+func lgZero(ty string) (string, error) {
 	switch {
+	case ty == ltUint:
+		return "0%N", nil
+	case isIntTy(ty):
+		return "0", nil
+	case ty == ltBool:
+		return "false", nil
+	}
+	return "", fmt.Errorf("no zero value for %s", ty)
+}
+
+// lgArr splits "arr:<n>:<elem>".
+func lgArr(t string) (int, string, bool) {
+	if !strings.HasPrefix(t, "arr:") {
+		return 0, "", false
+	}
+	rest := t[4:]
+	i := strings.Index(rest, ":")
+	n := 0
+	fmt.Sscan(rest[:i], &n)
+	return n, rest[i+1:], true
+}
+
+func (g *lg) coqType(t string) (string, error) {
+	if _, el, ok := lgArr(t); ok {
+		ct, err := g.coqType(el)
+		if err != nil {
+			return "", err
+		}
+		return "(list " + ct + ")", nil
+	}
+	switch {
+	case t == ltUint:
+		return "N", nil
 	case isIntTy(t):
 		return "Z", nil
 	case t == ltBool:
@@ -149,7 +193,7 @@ func (g *lg) goType(x ast.Expr) (string, error) {
 	switch t := x.(type) {
 	case *ast.Ident:
 		switch t.Name {
-		case "int64", "uint64", "int", "bool":
+		case "int64", "uint64", "int", "bool", "uint":
 			return t.Name, nil
 		}
 		if _, ok := g.structs[t.Name]; ok {
@@ -168,6 +212,9 @@ func (g *lg) goType(x ast.Expr) (string, error) {
 				return ltInt64, nil
 			}
 		}
+		if id, ok := t.X.(*ast.Ident); ok && id.Name == g.mortonName && g.mortonName != "" && t.Sel.Name == "Z" {
+			return ltUint, nil // type Z = uint (checked by lgCheckMorton)
+		}
 	case *ast.ArrayType:
 		if t.Len == nil {
 			if id, ok := t.Elt.(*ast.Ident); ok {
@@ -175,6 +222,19 @@ func (g *lg) goType(x ast.Expr) (string, error) {
 					return "slice:" + id.Name, nil
 				}
 			}
+		} else if bl, ok := t.Len.(*ast.BasicLit); ok && bl.Kind == token.INT {
+			n, err := parseIntLit(bl.Value)
+			if err != nil || !n.IsInt64() || n.Int64() < 1 || n.Int64() > 64 {
+				return "", fmt.Errorf("unsupported array length %s", bl.Value)
+			}
+			el, err := g.goType(t.Elt)
+			if err != nil {
+				return "", err
+			}
+			if !isIntTy(el) && el != ltBool {
+				return "", fmt.Errorf("unsupported array element type %s", el)
+			}
+			return fmt.Sprintf("arr:%d:%s", n.Int64(), el), nil
 		}
 	}
 	return "", fmt.Errorf("unsupported type %s", types.ExprString(x))
@@ -190,7 +250,7 @@ func (g *lg) conv(v lval, ty string) (lval, error) {
 		if v.c.Cmp(lo) < 0 || v.c.Cmp(hi) > 0 {
 			return lval{}, fmt.Errorf("constant %s overflows %s", v.c, ty)
 		}
-		return lval{code: lgLit(v.c), ty: ty, c: v.c}, nil
+		return lval{code: lgTypedLit(v.c, ty), ty: ty, c: v.c}, nil
 	}
 	return lval{}, fmt.Errorf("type mismatch: %s used as %s", v.ty, ty)
 }
@@ -202,7 +262,7 @@ func (g *lg) constVal(z *big.Int, ty string) (lval, error) {
 			return lval{}, fmt.Errorf("constant %s overflows %s", z, ty)
 		}
 	}
-	return lval{code: lgLit(z), ty: ty, c: z}, nil
+	return lval{code: lgTypedLit(z, ty), ty: ty, c: z}, nil
 }
 
 func (g *lg) expr(env *lenv, x ast.Expr) (lval, error) {
@@ -291,6 +351,13 @@ func (g *lg) expr(env *lenv, x ast.Expr) (lval, error) {
 		case v.ty == ltExtent && 0 <= i && i < 4:
 			return lval{code: fmt.Sprintf("(gl_ext%d %s)", i, v.code), ty: ltInt64}, nil
 		}
+		if n, el, ok := lgArr(v.ty); ok && 0 <= i && i < int64(n) {
+			z, err := lgZero(el)
+			if err != nil {
+				return lval{}, err
+			}
+			return lval{code: fmt.Sprintf("(nth %d%%nat %s %s)", i, v.code, z), ty: el}, nil
+		}
 		return lval{}, fmt.Errorf("unsupported index [%d] on %s", i, v.ty)
 	case *ast.SelectorExpr:
 		v, err := g.expr(env, x.X)
@@ -363,6 +430,9 @@ func (g *lg) binary(env *lenv, x *ast.BinaryExpr) (lval, error) {
 				return lval{code: fmt.Sprint(r), ty: ltBool}, nil
 			}
 			eq = "(" + a.code + " =? " + b.code + ")"
+			if ty == ltUint {
+				eq += "%N"
+			}
 		default:
 			return lval{}, fmt.Errorf("%s on %s", x.Op, ty)
 		}
@@ -390,6 +460,9 @@ func (g *lg) binary(env *lenv, x *ast.BinaryExpr) (lval, error) {
 		case token.GEQ:
 			s = "(" + b.code + " <=? " + a.code + ")"
 		}
+		if ty == ltUint {
+			s += "%N"
+		}
 		return lval{code: s, ty: ltBool}, nil
 	case token.ADD, token.SUB, token.MUL:
 		if !(isIntTy(ty) || ty == ltUntyped) {
@@ -411,6 +484,9 @@ func (g *lg) binary(env *lenv, x *ast.BinaryExpr) (lval, error) {
 			ltInt64:  {token.ADD: "add64", token.SUB: "sub64", token.MUL: "mul64w"},
 			ltUint64: {token.ADD: "uadd64", token.SUB: "usub64", token.MUL: "umul64w"},
 		}
+		if ty == ltUint && (x.Op == token.ADD || x.Op == token.MUL) { // uint arithmetic modulo 2^64 (Bits/Bexpr.v w64)
+			return lval{code: "(w64 (" + a.code + " " + x.Op.String() + " " + b.code + ")%N)", ty: ty}, nil
+		}
 		f, ok := names[ty][x.Op]
 		if !ok {
 			return lval{}, fmt.Errorf("non-constant %s on %s is not supported", x.Op, ty)
@@ -424,6 +500,33 @@ func (g *lg) composite(env *lenv, x *ast.CompositeLit) (lval, error) {
 	ty, err := g.goType(x.Type)
 	if err != nil {
 		return lval{}, err
+	}
+	if n, el, ok := lgArr(ty); ok {
+		if len(x.Elts) != 0 && len(x.Elts) != n {
+			return lval{}, fmt.Errorf("array literal with %d of %d elements", len(x.Elts), n)
+		}
+		var items []string
+		for _, e := range x.Elts {
+			if _, keyed := e.(*ast.KeyValueExpr); keyed {
+				return lval{}, fmt.Errorf("keyed array literal")
+			}
+			v, err := g.expr(env, e)
+			if err != nil {
+				return lval{}, err
+			}
+			if v, err = g.conv(v, el); err != nil {
+				return lval{}, err
+			}
+			items = append(items, v.code)
+		}
+		for len(items) < n {
+			z, err := lgZero(el)
+			if err != nil {
+				return lval{}, err
+			}
+			items = append(items, z)
+		}
+		return lval{code: "[" + strings.Join(items, "; ") + "]", ty: ty}, nil
 	}
 	if !strings.HasPrefix(ty, "struct:") {
 		return lval{}, fmt.Errorf("unsupported composite literal of %s", ty)
@@ -525,6 +628,26 @@ func (g *lg) call(env *lenv, x *ast.CallExpr) (lval, error) {
 				return lval{code: "(wrap64 " + v.code + ")", ty: ltInt64}, nil
 			}
 			return lval{}, fmt.Errorf("unsupported conversion %s(%s)", f.Name, v.ty)
+		case "uint":
+			if len(x.Args) != 1 {
+				return lval{}, fmt.Errorf("bad conversion")
+			}
+			v, err := g.expr(env, x.Args[0])
+			if err != nil {
+				return lval{}, err
+			}
+			if v.c != nil && v.ty == ltUntyped {
+				return g.constVal(v.c, ltUint)
+			}
+			switch v.ty {
+			case ltUint:
+				return v, nil
+			case ltInt, ltInt64: // two's complement: uint(x) = x mod 2^64
+				return lval{code: "(Z.to_N (u64 (" + v.code + ")%Z))", ty: ltUint}, nil
+			case ltUint64:
+				return lval{code: "(Z.to_N (" + v.code + ")%Z)", ty: ltUint}, nil
+			}
+			return lval{}, fmt.Errorf("unsupported conversion uint(%s)", v.ty)
 		case "append":
 			if len(x.Args) != 2 {
 				return lval{}, fmt.Errorf("append with %d arguments is not supported", len(x.Args))
@@ -576,6 +699,9 @@ func (g *lg) call(env *lenv, x *ast.CallExpr) (lval, error) {
 		if !g.emitted[f.Name] {
 			return lval{}, fmt.Errorf("call of %s before its translation", f.Name)
 		}
+		if sig.panics {
+			return lval{}, fmt.Errorf("call of %s, which can panic, is not supported", f.Name)
+		}
 		as, err := g.args(env, x.Args, sig.params, f.Name)
 		if err != nil {
 			return lval{}, err
@@ -592,6 +718,28 @@ func (g *lg) call(env *lenv, x *ast.CallExpr) (lval, error) {
 					return lval{}, err
 				}
 				return lval{code: "(mul64 " + as[0] + " " + as[1] + ")", ty: "tuple:uint64,uint64"}, nil
+			}
+		}
+		if pkg, ok := f.X.(*ast.Ident); ok && pkg.Name == g.mortonName && g.mortonName != "" {
+			if _, shadow := env.vars[pkg.Name]; !shadow {
+				// fromZ / toZ of Bits/Morton.v: the evaluation of the programs regenerated from morton.go (G1)
+				switch f.Sel.Name {
+				case "FromZ":
+					as, err := g.args(env, x.Args, []lfield{{"z", ltUint}}, "morton.FromZ")
+					if err != nil {
+						return lval{}, err
+					}
+					return lval{code: "(fromZ " + as[0] + ")", ty: "tuple:uint,uint"}, nil
+				case "ToZ":
+					as, err := g.args(env, x.Args, []lfield{{"x", ltUint}, {"y", ltUint}}, "morton.ToZ")
+					if err != nil {
+						return lval{}, err
+					}
+					return lval{code: "(toZ " + as[0] + " " + as[1] + ")", ty: "tuple:uint,bool"}, nil
+				case "MustToZ":
+					return lval{}, fmt.Errorf("morton.MustToZ (can panic) is only supported as the whole right-hand side of an assignment")
+				}
+				return lval{}, fmt.Errorf("unsupported call morton.%s", f.Sel.Name)
 			}
 		}
 		recv, err := g.expr(env, f.X)
@@ -626,6 +774,9 @@ func lgAssigned(stmts []ast.Stmt, acc map[string]bool) {
 			case *ast.AssignStmt:
 				if n.Tok != token.DEFINE {
 					for _, l := range n.Lhs {
+						if ix, isIx := l.(*ast.IndexExpr); isIx {
+							l = ix.X // a[i] = v assigns (part of) the array variable a
+						}
 						if id, ok := l.(*ast.Ident); ok {
 							acc[id.Name] = true
 						} else {
@@ -861,6 +1012,14 @@ func (g *lg) assign(env *lenv, s *ast.AssignStmt, rest []ast.Stmt, k lcont, ret 
 	if s.Tok != token.DEFINE && s.Tok != token.ASSIGN {
 		return "", fmt.Errorf("unsupported assignment operator %s", s.Tok)
 	}
+	if len(s.Lhs) == 1 && len(s.Rhs) == 1 {
+		if ix, ok := s.Lhs[0].(*ast.IndexExpr); ok {
+			return g.assignIndex(env, s, ix, rest, k, ret)
+		}
+		if g.isMustToZ(env, s.Rhs[0]) {
+			return g.assignMustToZ(env, s, rest, k, ret)
+		}
+	}
 	var names []string
 	seen := map[string]bool{}
 	for _, l := range s.Lhs {
@@ -982,6 +1141,100 @@ func (g *lg) assign(env *lenv, s *ast.AssignStmt, rest []ast.Stmt, k lcont, ret 
 		return "", err
 	}
 	return let + body, nil
+}
+
+// a[i] = v for an array variable a and a constant index i
+func (g *lg) assignIndex(env *lenv, s *ast.AssignStmt, ix *ast.IndexExpr, rest []ast.Stmt, k lcont, ret func(string) string) (string, error) {
+	if s.Tok != token.ASSIGN {
+		return "", fmt.Errorf("unsupported indexed assignment %s", s.Tok)
+	}
+	id, ok := ix.X.(*ast.Ident)
+	if !ok {
+		return "", fmt.Errorf("unsupported assignment target %s", types.ExprString(ix))
+	}
+	aty, ok := env.vars[id.Name]
+	if !ok {
+		return "", fmt.Errorf("assignment to unknown variable %s", id.Name)
+	}
+	n, el, isArr := lgArr(aty)
+	if !isArr {
+		return "", fmt.Errorf("indexed assignment to %s", aty)
+	}
+	iv, err := g.expr(env, ix.Index)
+	if err != nil {
+		return "", err
+	}
+	if iv.c == nil || !(iv.ty == ltUntyped || iv.ty == ltInt) || !iv.c.IsInt64() || iv.c.Int64() < 0 || iv.c.Int64() >= int64(n) {
+		return "", fmt.Errorf("index %s is not a constant inside the array", types.ExprString(ix.Index))
+	}
+	v, err := g.expr(env, s.Rhs[0])
+	if err != nil {
+		return "", err
+	}
+	if v, err = g.conv(v, el); err != nil {
+		return "", err
+	}
+	body, err := g.stmts(env, rest, k, ret)
+	if err != nil {
+		return "", err
+	}
+	return fmt.Sprintf("let v_%s := (arr_set %d%%nat %s v_%s) in\n  %s", id.Name, iv.c.Int64(), v.code, id.Name, body), nil
+}
+
+func (g *lg) isMustToZ(env *lenv, x ast.Expr) bool {
+	c, ok := x.(*ast.CallExpr)
+	if !ok {
+		return false
+	}
+	sel, ok := c.Fun.(*ast.SelectorExpr)
+	if !ok || sel.Sel.Name != "MustToZ" {
+		return false
+	}
+	pkg, ok := sel.X.(*ast.Ident)
+	if !ok || pkg.Name != g.mortonName || g.mortonName == "" {
+		return false
+	}
+	_, shadow := env.vars[pkg.Name]
+	return !shadow
+}
+
+// z := morton.MustToZ(x, y): mustToZ of Bits/Morton.v, None = the panic, which ends the function
+func (g *lg) assignMustToZ(env *lenv, s *ast.AssignStmt, rest []ast.Stmt, k lcont, ret func(string) string) (string, error) {
+	if !g.panics {
+		return "", fmt.Errorf("panicking call in a function not translated with a panic result")
+	}
+	id, ok := s.Lhs[0].(*ast.Ident)
+	if !ok {
+		return "", fmt.Errorf("unsupported assignment target")
+	}
+	c := s.Rhs[0].(*ast.CallExpr)
+	as, err := g.args(env, c.Args, []lfield{{"x", ltUint}, {"y", ltUint}}, "morton.MustToZ")
+	if err != nil {
+		return "", err
+	}
+	env2 := env.clone()
+	pat := "_"
+	if id.Name != "_" {
+		if _, isConst := env.consts[id.Name]; isConst {
+			return "", fmt.Errorf("assignment to the unrolled loop variable %s", id.Name)
+		}
+		old, exists := env.vars[id.Name]
+		switch {
+		case s.Tok == token.DEFINE && exists:
+			return "", fmt.Errorf(":= of the existing variable %s is not supported", id.Name)
+		case s.Tok == token.ASSIGN && (!exists || old != ltUint):
+			return "", fmt.Errorf("assignment to %s: unknown variable or type mismatch", id.Name)
+		case s.Tok != token.DEFINE && s.Tok != token.ASSIGN:
+			return "", fmt.Errorf("unsupported assignment operator %s", s.Tok)
+		}
+		env2.vars[id.Name] = ltUint
+		pat = "v_" + id.Name
+	}
+	body, err := g.stmts(env2, rest, k, ret)
+	if err != nil {
+		return "", err
+	}
+	return fmt.Sprintf("match (mustToZ %s %s) with\n  | None => None (* panic *)\n  | Some %s =>\n  %s\n  end", as[0], as[1], pat, body), nil
 }
 
 // branch: if c1 {b1} else if c2 {b2} ... else {def}, followed by `after`.
@@ -1140,6 +1393,9 @@ func (g *lg) rangeLoop(env *lenv, s *ast.RangeStmt, after lcont, ret func(string
 	if s.Tok != token.DEFINE {
 		return "", fmt.Errorf("unsupported range loop (no :=)")
 	}
+	if g.panics {
+		return "", fmt.Errorf("range loop in a function that can panic is not supported")
+	}
 	if s.Key != nil {
 		if id, ok := s.Key.(*ast.Ident); !ok || id.Name != "_" {
 			return "", fmt.Errorf("unsupported range loop (index variable)")
@@ -1288,10 +1544,23 @@ func (g *lg) function(key string) error {
 	}
 	g.cur = sig
 	g.n = 0
+	g.panics = false
+	ast.Inspect(fd.Body, func(n ast.Node) bool {
+		if e, ok := n.(ast.Expr); ok && g.isMustToZ(env, e) {
+			g.panics = true
+		}
+		return true
+	})
+	wrap := func(v string) string { return v }
+	sig.panics = g.panics
+	if g.panics {
+		rt = "(option " + rt + ")"
+		wrap = func(v string) string { return "(Some " + v + ")" }
+	}
 	fall := lcont{gen: func() (string, error) {
 		return "", fmt.Errorf("control reaches the end of the function without a return")
 	}, cheap: true}
-	body, err := g.stmts(env, fd.Body.List, fall, func(v string) string { return v })
+	body, err := g.stmts(env, fd.Body.List, fall, wrap)
 	if err != nil {
 		return fmt.Errorf("%s: %v", key, err)
 	}
@@ -1343,15 +1612,21 @@ func lgCheckGeom(repo string) error {
 	return nil
 }
 
-func genLine(repo string) (string, error) {
+// lgLoad parses pointindex.go: imports, untyped constants, the struct paramBound, and the signatures of `wanted`.
+func lgLoad(repo string, wanted map[string]bool) (*lg, *ast.TypeSpec, error) {
+	g, ts, err := lgLoad0(repo, wanted)
+	return g, ts, err
+}
+
+func lgLoad0(repo string, wanted map[string]bool) (*lg, *ast.TypeSpec, error) {
 	g := &lg{fset: token.NewFileSet(), structs: map[string][]lfield{}, consts: map[string]*big.Int{},
 		sigs: map[string]*lsig{}, emitted: map[string]bool{}}
 	if err := lgCheckGeom(repo); err != nil {
-		return "", err
+		return nil, nil, err
 	}
 	f, err := parser.ParseFile(g.fset, filepath.Join(repo, "pointindex/pointindex.go"), nil, 0)
 	if err != nil {
-		return "", err
+		return nil, nil, err
 	}
 	for _, im := range f.Imports {
 		path := strings.Trim(im.Path.Value, `"`)
@@ -1364,10 +1639,12 @@ func genLine(repo string) (string, error) {
 			g.bitsName = name
 		case strings.HasSuffix(path, "/texel/intgeom"):
 			g.geomName = name
+		case strings.HasSuffix(path, "/texel/morton"):
+			g.mortonName = name
 		}
 	}
 	if g.geomName == "" {
-		return "", fmt.Errorf("import of intgeom not found")
+		return nil, nil, fmt.Errorf("import of intgeom not found")
 	}
 	// package-level untyped integer constants and the struct paramBound
 	var funcs []*ast.FuncDecl
@@ -1405,27 +1682,26 @@ func genLine(repo string) (string, error) {
 		}
 	}
 	if structDecl == nil {
-		return "", fmt.Errorf("type paramBound not found")
+		return nil, nil, fmt.Errorf("type paramBound not found")
 	}
 	st, ok := structDecl.Type.(*ast.StructType)
 	if !ok || structDecl.Assign != token.NoPos || structDecl.TypeParams != nil {
-		return "", fmt.Errorf("paramBound is not a plain struct")
+		return nil, nil, fmt.Errorf("paramBound is not a plain struct")
 	}
 	var fields []lfield
 	for _, fl := range st.Fields.List {
 		t, err := g.goType(fl.Type)
 		if err != nil {
-			return "", fmt.Errorf("paramBound: %v", err)
+			return nil, nil, fmt.Errorf("paramBound: %v", err)
 		}
 		if len(fl.Names) == 0 {
-			return "", fmt.Errorf("paramBound: embedded field")
+			return nil, nil, fmt.Errorf("paramBound: embedded field")
 		}
 		for _, n := range fl.Names {
 			fields = append(fields, lfield{n.Name, t})
 		}
 	}
 	g.structs["paramBound"] = fields
-	wanted := map[string]bool{"cmpProducts": true, "paramBound.leavesRoomBelow": true, "lineIntersects": true}
 	for _, fd := range funcs {
 		key := fd.Name.Name
 		if fd.Recv != nil && len(fd.Recv.List) == 1 {
@@ -1440,11 +1716,19 @@ func genLine(repo string) (string, error) {
 		}
 		sig, err := g.signature(fd)
 		if err != nil {
-			return "", fmt.Errorf("%s: %v", key, err)
+			return nil, nil, fmt.Errorf("%s: %v", key, err)
 		}
 		g.sigs[key] = sig
 	}
+	return g, structDecl, nil
+}
 
+func genLine(repo string) (string, error) {
+	g, structDecl, err := lgLoad(repo, map[string]bool{"cmpProducts": true, "paramBound.leavesRoomBelow": true, "lineIntersects": true})
+	if err != nil {
+		return "", err
+	}
+	fields := g.structs["paramBound"]
 	g.out.WriteString("(* GENERATED by /verif/translator (G2, machine integers) from pointindex/pointindex.go on every run -- do not edit. *)\n")
 	g.out.WriteString("From Coq Require Import ZArith List Bool.\nFrom Texel Require Import Index.MachineInt.\nImport ListNotations.\nOpen Scope Z_scope.\n\n")
 	g.out.WriteString("(* intgeom.Line = [2][2]int64, intgeom.Extent = [4]int64 *)\n")
@@ -1468,6 +1752,77 @@ func genLine(repo string) (string, error) {
 		if err := g.function(key); err != nil {
 			return "", err
 		}
+	}
+	return g.out.String(), nil
+}
+
+// lgCheckMorton: morton.Z is an alias of uint and the three functions have the signatures the translation assumes.
+func lgCheckMorton(repo string) error {
+	fset := token.NewFileSet()
+	f, err := parser.ParseFile(fset, filepath.Join(repo, "morton/morton.go"), nil, 0)
+	if err != nil {
+		return err
+	}
+	want := map[string]string{
+		"type Z":       "= uint",
+		"func ToZ":     "func(x, y uint) (z Z, ok bool)",
+		"func MustToZ": "func(x, y uint) Z",
+		"func FromZ":   "func(z Z) (x, y uint)",
+	}
+	got := map[string]string{}
+	for _, d := range f.Decls {
+		switch d := d.(type) {
+		case *ast.FuncDecl:
+			if d.Recv == nil {
+				got["func "+d.Name.Name] = types.ExprString(d.Type)
+			}
+		case *ast.GenDecl:
+			if d.Tok == token.TYPE {
+				for _, sp := range d.Specs {
+					ts := sp.(*ast.TypeSpec)
+					t := types.ExprString(ts.Type)
+					if ts.Assign != token.NoPos {
+						t = "= " + t
+					}
+					got["type "+ts.Name.Name] = t
+				}
+			}
+		}
+	}
+	for n, w := range want {
+		if got[n] != w {
+			return fmt.Errorf("morton: %s is %q, the translation assumes %q", n, got[n], w)
+		}
+	}
+	return nil
+}
+
+// genChildren: pointindex.getQuadrantZs -> gen/ChildrenGen.v, over the fromZ / mustToZ of Bits/Morton.v (the
+// evaluation of the programs regenerated from morton.go) and the gen_oneIfRight / gen_oneIfTop of PointIndexGen.v.
+func genChildren(repo string) (string, error) {
+	if err := lgCheckMorton(repo); err != nil {
+		return "", err
+	}
+	g, _, err := lgLoad(repo, map[string]bool{"getQuadrantZs": true, "oneIfRight": true, "oneIfTop": true})
+	if err != nil {
+		return "", err
+	}
+	if g.mortonName == "" {
+		return "", fmt.Errorf("import of morton not found")
+	}
+	for _, ext := range []string{"oneIfRight", "oneIfTop"} { // translated into PointIndexGen.v by genPointIndex
+		sig, ok := g.sigs[ext]
+		if !ok || sig.recvTy != "" || len(sig.params) != 1 || sig.params[0].ty != ltInt || sig.result != ltInt {
+			return "", fmt.Errorf("%s is not func(int) int", ext)
+		}
+		g.emitted[ext] = true
+	}
+	g.out.WriteString("(* GENERATED by /verif/translator (G2, machine integers) from pointindex/pointindex.go on every run -- do not edit. *)\n")
+	g.out.WriteString("From Coq Require Import ZArith NArith List Bool.\nFrom Texel Require Import Bits.Bexpr Bits.Morton Index.MachineInt.\nFrom Texel.Gen Require Import PointIndexGen.\nImport ListNotations.\nOpen Scope Z_scope.\n\n")
+	g.out.WriteString("(* a[i] = v on a fixed-size array (i is inside the array: checked by the translator) *)\n")
+	g.out.WriteString("Fixpoint arr_set {A : Type} (i : nat) (v : A) (a : list A) : list A :=\n  match a, i with\n  | [], _ => []\n  | _ :: r, O => v :: r\n  | x :: r, S j => x :: arr_set j v r\n  end.\n\n")
+	if err := g.function("getQuadrantZs"); err != nil {
+		return "", err
 	}
 	return g.out.String(), nil
 }
